@@ -90,6 +90,60 @@ struct TupleUnionTr : TrBase {
   static std::string obs(Sk& s) { return TupleObj<S>::obs_of(s.get_result(true)); }
   static void ser(Sk& s) { s.get_result().serialize(); }
 };
+// tuple sketches whose summary is an instrumented item (construction / destruction counted) and whose hash table GROWS:
+// lg_k 6 with resize factor X2 starts at 32 slots and reaches 128 during b(); reset() then has to give back a grown table
+struct ItemUpdPolicy { Item create() const { return Item(0); } void update(Item& s, const int& v) const { s = Item(s.get() + v); } };
+struct TupleItemTr : TrBase {
+  typedef Item S; typedef TrackAlloc<S> AS; typedef update_tuple_sketch<S, int, ItemUpdPolicy, AS> Sk; static std::string nm() { return "tuple-update<item>/growing"; }
+  static Sk* make(int arena) { return new Sk(Sk::builder(ItemUpdPolicy(), AS(arena)).set_lg_k(6).set_resize_factor(theta_constants::resize_factor::X2).build()); }
+  static void a(Sk& s, int n) { s.update((uint64_t)n, 1 + n); s.update((uint64_t)n, 2); }
+  static void b(Sk& s, int n) { for (int i = 0; i < (n % 2 ? 40 : 150); ++i) s.update((uint64_t)(1000 * n + i), i); }
+  static const bool has_merge = false; static void merge(Sk&, const Sk&) {} static void merge_move(Sk&, Sk&&) {}
+  static const bool has_reset = true; static void reset(Sk& s) { s.reset(); }
+  static std::string obs(Sk& s) { return TupleObj<S>::obs_of(s.compact(true)) + "|lgcur=" + str((int)s.map_.lg_cur_size_); }
+  static void ser(Sk& s) { s.compact().serialize(0, ItemSerde()); }
+};
+struct TupleItemUnionTr : TrBase {
+  typedef Item S; typedef TrackAlloc<S> AS; struct Pol { void operator()(S& a, const S& b) const { a = Item(a.get() + b.get()); } };
+  typedef tuple_union<S, Pol, AS> Sk; static std::string nm() { return "tuple-union<item>/growing"; }
+  static Sk* make(int arena) { return new Sk(Sk::builder(Pol(), AS(arena)).set_lg_k(6).set_resize_factor(theta_constants::resize_factor::X2).build()); }
+  static TupleItemTr::Sk src(int arena, int n) { TupleItemTr::Sk u = TupleItemTr::Sk::builder(ItemUpdPolicy(), AS(arena)).set_lg_k(6).build(); for (int i = 0; i < n; ++i) u.update((uint64_t)i, i); return u; }
+  static void a(Sk& s, int n) { s.update(src(7, 3 + n)); } static void b(Sk& s, int n) { TupleItemTr::Sk u = src(8, (n % 2 ? 40 : 150) + n); s.update(std::move(u)); }
+  static const bool has_merge = false; static void merge(Sk&, const Sk&) {} static void merge_move(Sk&, Sk&&) {}
+  static const bool has_reset = true; static void reset(Sk& s) { s.reset(); }
+  static std::string obs(Sk& s) { return TupleObj<S>::obs_of(s.get_result(true)); }
+  static void ser(Sk& s) { s.get_result().serialize(0, ItemSerde()); }
+};
+// array-of-doubles update sketch: every summary owns a heap array obtained from the user's allocator; growing table as above
+struct AodUpdTr : TrBase {
+  typedef AodObj::AD AD; typedef AodObj::Arr Arr; typedef default_array_tuple_update_policy<Arr, AD> Pol; typedef update_array_tuple_sketch<Arr, Pol, AD> Sk;
+  static std::string nm() { return "array-of-doubles-update/growing"; }
+  static Sk* make(int arena) { return new Sk(Sk::builder(Pol(2, AD(arena)), AD(arena)).set_lg_k(6).set_resize_factor(theta_constants::resize_factor::X2).build()); }
+  static void one(Sk& s, uint64_t key, double v) { Arr x(2, 0.0, s.get_allocator()); x[0] = v; x[1] = -v; s.update(key, x); }
+  static void a(Sk& s, int n) { one(s, (uint64_t)n, n); one(s, (uint64_t)n, 0.5); }
+  static void b(Sk& s, int n) { for (int i = 0; i < (n % 2 ? 40 : 150); ++i) one(s, (uint64_t)(1000 * n + i), i); }
+  static const bool has_merge = false; static void merge(Sk&, const Sk&) {} static void merge_move(Sk&, Sk&&) {}
+  static const bool has_reset = true; static void reset(Sk& s) { s.reset(); }
+  static std::string obs(Sk& s) { AodObj::CA c = s.compact(true); return AodObj::obs_of(c); }
+  static void ser(Sk& s) { s.compact().serialize(); }
+};
+// HLL_4 at lg_k 4 driven by injected coupons so that the auxiliary exception map is created, survives one cur_min shift and is
+// emptied by another: slot 0 holds value 15 (an exception while cur_min is 0, an ordinary nibble once cur_min is 1), or 20
+struct HllAuxTr : TrBase {
+  typedef Hll Sk; static std::string nm() { return "hll-sketch/HLL_4-aux-map"; }
+  static Sk* make(int arena) { return new Sk(4, HLL_4, false, A8(arena)); }
+  static uint32_t cp(int slot, int val) { return ((uint32_t)val << 26) | (uint32_t)slot; }
+  static void a(Sk& s, int n) { s.coupon_update(cp(1 + n % 15, 1 + n % 3)); }
+  static void b(Sk& s, int n) {
+    s.coupon_update(cp(0, n % 2 ? 15 : 20)); s.coupon_update(cp(5, 16));     // two exceptions while cur_min is 0
+    for (int slot = 1; slot < 16; ++slot) s.coupon_update(cp(slot, 1));            // every slot above 0: cur_min becomes 1; value 15 stops being an exception
+    if (n % 2) for (int slot = 0; slot < 16; ++slot) s.coupon_update(cp(slot, 2)); // cur_min 2: value 16 stops being one too, the map is empty
+  }
+  static const bool has_merge = false; static void merge(Sk&, const Sk&) {} static void merge_move(Sk&, Sk&&) {}
+  static const bool has_reset = true; static void reset(Sk& s) { s.reset(); }
+  static std::string obs(Sk& s) { return HllObj::obs_of(s); }
+  static void ser(Sk& s) { s.serialize_compact(); s.serialize_updatable(); }
+};
 struct HllTr : TrBase {
   typedef Hll Sk; static std::string nm() { return "hll-sketch"; }
   static Sk* make(int arena) { return new Sk(8, HLL_4, false, A8(arena)); }
@@ -302,7 +356,11 @@ int main(int argc, char** argv) {
   add_family<ThetaInterTr>(tasks, cfg, 6, 8);
   add_family<TupleUpdTr>(tasks, cfg, 6, 8);
   add_family<TupleUnionTr>(tasks, cfg, 6, 8);
+  add_family<TupleItemTr>(tasks, cfg, 6, 8);
+  add_family<TupleItemUnionTr>(tasks, cfg, 6, 8);
+  add_family<AodUpdTr>(tasks, cfg, 6, 8);
   add_family<HllTr>(tasks, cfg, 6, 8);
+  add_family<HllAuxTr>(tasks, cfg, 6, 8);
   add_family<HllUnionTr>(tasks, cfg, 6, 8);
   add_family<CpcTr>(tasks, cfg, 6, 8);
   add_family<CpcUnionTr>(tasks, cfg, 6, 8);
